@@ -447,9 +447,9 @@ def _worker(task):
     col = E.Collector()
     ctx = Ctx(col)
     quick = tier == 'quick'
-    nmut = 12 if quick else 60
-    nres = 2 if quick else 6
-    nvalid = 25 if quick else 80
+    nmut = 8 if quick else 30
+    nres = 2 if quick else 4
+    nvalid = 15 if quick else 40
     with common.frozen_today(TODAY):
         if kind == 'eu':
             cc = key
@@ -467,10 +467,10 @@ def _worker(task):
             foreign = []
             for other in sorted(EU_MEMBERS):
                 if other != cc:
-                    foreign.extend(common.valid_numbers('stdnum.' + EU_MEMBERS[other])[:3])
+                    foreign.extend(common.valid_numbers('stdnum.' + EU_MEMBERS[other])[:1 if quick else 3])
             for v in valid + foreign:
                 is_foreign = v in foreign
-                for y in variants(rng, v, 3 if is_foreign else nmut):
+                for n, y in enumerate([v, v.lower()] if is_foreign else variants(rng, v, nmut)):
                     if not trimmed(y):
                         continue
                     if starts_with_own_prefix(cc, y):
@@ -479,7 +479,7 @@ def _worker(task):
                         continue
                     for p in prefix_spellings(rng, cc)[:2 if is_foreign else 5]:
                         check_eu(ctx, cc, p, y)
-                    if not is_foreign and idx == 0:
+                    if not is_foreign and idx == 0 and (n < 4 or (not quick and n % 4 == 0)):
                         check_guess(ctx, y)
                         check_guess(ctx, cc + y)
             if len(col.samples) < 1 and valid:
@@ -507,7 +507,7 @@ def _worker(task):
             for n in names:
                 for v in base[:nvalid]:
                     valid.extend(resample(rng, M(n), v, nres))
-            for y in union_synth(rng, wrapper, 150 if quick else 1500):
+            for y in union_synth(rng, wrapper, 150 if quick else 800):
                 check_union(ctx, wrapper, y)
             for v in valid:
                 for y in variants(rng, v, nmut * 2):
